@@ -4,7 +4,7 @@ Import ListNotations.
 Require Import GV.Model.J1939 GV.Model.Governor GV.Model.Hcu GV.Model.Object GV.Model.HcuUnit
   GV.Spec.C02_spec GV.Spec.C01_spec GV.Proofs.C01_proof
   GV.Model.Units GV.Model.Authority GV.Model.Auth_io GV.Model.C01a_io GV.Proofs.C01_auth
-  GV.Gen.Consts GV.Model.Sched GV.Proofs.Sched_proof GV.Model.C01r_io GV.Proofs.C01_runtime.
+  GV.Gen.Consts GV.Model.Sched GV.Proofs.Sched_proof GV.Model.C01r_io GV.Proofs.C01_runtime GV.Model.Broadcast GV.Proofs.C01_channel.
 Local Open Scope Z_scope.
 
 Theorem C01 : forall c, c01_wf c = true -> c01_spec_ok c (c01_model c) = true.
@@ -111,3 +111,12 @@ Check C01_final_stop_all_is_reasserted : forall addr nm cs evs before after,
   forall it now, In it (a_items a) -> i_kind it = KHcu ->
     item_tick_frames it now = encode_motion (u_da (i_cfg it)) (u_sa (i_cfg it)) StopAll.
 Print Assumptions C01_final_stop_all_is_reasserted.
+(* ... where "the command task takes the newest QUEUE_SIZE_COMMAND objects of a burst" (lastn) is exactly what the
+   cursor model of the broadcast channel with the runtime's command loop (Model/Broadcast.v, validated against the real
+   Runtime by the C15 check) hands to on_command from a caught-up idle task, for ANY capacity, history and burst *)
+Theorem C01_channel_abstraction : forall (A : Type) (cap : nat) (dflt : A) (sent0 pend done : list A) (lags fuel : nat),
+  (length pend + 1 <= fuel)%nat ->
+  h_done A (s_h A (drain cap dflt fuel (idle (sent0 ++ pend) (length sent0) done lags))) = done ++ lastn cap pend
+  /\ h_holding A (s_h A (drain cap dflt fuel (idle (sent0 ++ pend) (length sent0) done lags))) = None.
+Proof. exact (@idle_task_takes_the_newest). Qed.
+Print Assumptions C01_channel_abstraction.
